@@ -8,13 +8,30 @@ Import ListNotations.
 Local Open Scope string_scope.
 Local Open Scope list_scope.
 
-(* every entry of the table is removed on every way out *)
-Definition entry_ok (e : string * (string * string)) : bool :=
-  let fn := fst e in let k := fst (snd e) in let r := snd (snd e) in
-  String.eqb r "defer" || (String.eqb r "close" && in_strs fn close_session_fns && in_strs k close_removes).
+(* a name is taken off the interpreter again on every way out of fn: by a deferred removal in fn, or - for
+   the functions of the WHEREEVAL borrower - by the Close() that puts the interpreter back *)
+Definition name_ok (fn nm : string) : bool :=
+  removed_by fn true nm || (in_strs fn close_session_fns && in_strs nm close_removes).
 
-Lemma source_globals_discipline : forallb entry_ok global_sets = true.
-Proof. vm_compute. reflexivity. Qed.
+(* every global a function sets itself ... *)
+Definition entry_ok (e : string * (string * string)) : bool := name_ok (fst e) (fst (snd e)).
+(* ... and every name the __newindex guard would let the Lua code of a script-running function create *)
+Definition passthrough_ok : bool :=
+  forallb (fun fn => forallb (name_ok fn) newindex_passthrough) script_runners.
+
+Lemma source_globals_discipline : forallb entry_ok global_sets = true /\ passthrough_ok = true.
+Proof. vm_compute. split; reflexivity. Qed.
+
+(* the guard refuses every name *)
+Lemma source_guard_refuses_every_name : newindex_passthrough = [].
+Proof. reflexivity. Qed.
+
+Lemma removed_by_early fn nm : removed_by fn true nm = true -> forall early, removed_by fn early nm = true.
+Proof.
+  unfold removed_by. intros H early. apply existsb_exists in H as [e [Hin He]]. apply existsb_exists. exists e.
+  split; [exact Hin|]. cbn [negb] in He. rewrite orb_false_r in He.
+  apply andb_true_iff in He as [He Hd]. rewrite He, Hd. reflexivity.
+Qed.
 
 Lemma find_b_in l u b : find_b l u = Some b -> In b l /\ b_user b = u.
 Proof.
@@ -112,29 +129,40 @@ Proof.
   - intros q [].
 Qed.
 
-Lemma survivors_close fn early k r :
-  In (k, r) (filter (fun kr => survives early (snd kr)) (sets_of fn)) ->
-  in_strs fn close_session_fns = true /\ in_strs k close_removes = true.
+Lemma survivors_close fn early script nm :
+  In nm (filter (fun nm => negb (removed_by fn early nm)) (sets_of fn ++ created fn script)) ->
+  in_strs fn close_session_fns = true /\ in_strs nm close_removes = true.
 Proof.
-  intros H. apply filter_In in H as [Hin Hs]. cbn in Hs.
-  unfold sets_of in Hin. apply in_map_iff in Hin as [[fn' [k' r']] [E Hin]]. cbn in E. inversion E; subst k' r'.
-  apply filter_In in Hin as [Hin Hfn]. cbn in Hfn. apply String.eqb_eq in Hfn. subst fn'.
-  pose proof source_globals_discipline as D. rewrite forallb_forall in D. specialize (D _ Hin).
-  unfold entry_ok in D. cbn in D. unfold survives in Hs.
-  destruct (String.eqb r "defer"); [discriminate|]. cbn in D.
-  apply andb_true_iff in D as [D Hk]. apply andb_true_iff in D as [_ Hf]. split; assumption.
+  intros H. apply filter_In in H as [Hin Hs]. apply negb_true_iff in Hs.
+  destruct source_globals_discipline as [D1 D2].
+  assert (Hok : name_ok fn nm = true).
+  { apply in_app_or in Hin as [Hin|Hin].
+    - unfold sets_of in Hin. apply in_map_iff in Hin as [[fn' [k' r']] [E Hin]]. cbn in E. subst k'.
+      apply filter_In in Hin as [Hin Hfn]. cbn in Hfn. apply String.eqb_eq in Hfn. subst fn'.
+      rewrite forallb_forall in D1. exact (D1 _ Hin).
+    - unfold created in Hin. destruct (in_strs fn script_runners) eqn:Er; [|destruct Hin].
+      apply in_map_iff in Hin as [a [<- Ha]]. apply filter_In in Ha as [_ Ha].
+      apply andb_true_iff in Ha as [_ Hp].
+      unfold passthrough_ok in D2. rewrite forallb_forall in D2.
+      assert (Hfn : In fn script_runners).
+      { unfold in_strs in Er. apply existsb_exists in Er as [y [Hy He]]. apply String.eqb_eq in He. subst y. exact Hy. }
+      specialize (D2 _ Hfn). rewrite forallb_forall in D2. apply D2.
+      unfold in_strs in Hp. apply existsb_exists in Hp as [y [Hy He]]. apply String.eqb_eq in He. subst y. exact Hy. }
+  unfold name_ok in Hok. apply orb_true_iff in Hok as [Hok|Hok].
+  - rewrite (removed_by_early _ _ Hok early) in Hs. discriminate.
+  - apply andb_true_iff in Hok. exact Hok.
 Qed.
 
 Lemma ginv_step p o : GInv p -> GInv (gstep p o).
 Proof.
-  intros [Hnd Hus Hb He]. destruct o as [u closes|u fn early|u]; cbn [gstep].
+  intros [Hnd Hus Hb He]. destruct o as [u closes|u fn early script|u]; cbn [gstep].
   - destruct (find_b (g_out p) u) eqn:Ef; [constructor; assumption|].
     assert (Hus' : NoDup (u :: map b_user (g_out p))).
     { constructor; [|exact Hus]. intros Hx. apply in_map_iff in Hx as [b [Eb Hb']]. exact (find_b_none _ _ Ef b Hb' Eb). }
     destruct (rev (g_idle p)) as [|x rest] eqn:Er.
     + assert (Hs : g_idle p = []) by (destruct (g_idle p) as [|a l]; [reflexivity | cbn in Er; destruct (rev l); discriminate]).
       unfold gstates in *. rewrite Hs in *. cbn [app] in *.
-      constructor; unfold gstates; cbn [g_idle g_fresh g_extra g_out app map b_state b_user].
+      constructor; unfold gstates; cbn [g_idle g_fresh g_extra g_gone g_out app map b_state b_user].
       * constructor; [|exact Hnd]. intros Hin. specialize (Hb _ Hin). lia.
       * exact Hus'.
       * intros x [<-|Hin]; [lia|]. specialize (Hb _ Hin). lia.
@@ -142,7 +170,7 @@ Proof.
     + assert (Hl : g_idle p = rev rest ++ [x]) by (rewrite <- (rev_involutive (g_idle p)), Er; reflexivity).
       assert (Hst : g_idle p ++ map b_state (g_out p) = rev rest ++ x :: map b_state (g_out p))
         by (rewrite Hl, <- app_assoc; reflexivity).
-      constructor; unfold gstates in *; cbn [g_idle g_fresh g_extra g_out map b_state b_user].
+      constructor; unfold gstates in *; cbn [g_idle g_fresh g_extra g_gone g_out map b_state b_user].
       * rewrite <- Hst. exact Hnd.
       * exact Hus'.
       * rewrite <- Hst. exact Hb.
@@ -150,9 +178,9 @@ Proof.
   - destruct (find_b (g_out p) u) as [b|] eqn:Ef; [|constructor; assumption].
     destruct (Bool.eqb (in_close_session fn) (b_closes b)) eqn:Es; [|constructor; assumption].
     destruct (find_b_in _ _ _ Ef) as [Hin Hu].
-    constructor; unfold gstates in *; cbn [g_idle g_fresh g_extra g_out]; try assumption.
+    constructor; unfold gstates in *; cbn [g_idle g_fresh g_extra g_gone g_out]; try assumption.
     intros q Hq. apply in_app_or in Hq as [Hq|Hq]; [|exact (He q Hq)].
-    apply in_map_iff in Hq as [[k r] [<- Hkr]]. destruct (survivors_close _ _ _ _ Hkr) as [Hf Hk].
+    apply in_map_iff in Hq as [k [<- Hkr]]. destruct (survivors_close _ _ _ _ Hkr) as [Hf Hk].
     exists b. cbn. split; [exact Hin|]. split; [reflexivity|]. split; [|exact Hk].
     apply eqb_prop in Es. rewrite <- Es. exact Hf.
   - destruct (find_b (g_out p) u) as [b|] eqn:Ef; [|constructor; assumption].
@@ -165,7 +193,7 @@ Proof.
       intros Hx. apply H1. apply in_app_or in Hx as [Hx|Hx]; apply in_or_app; [left; exact Hx|].
       right. destruct Hx as [<-|Hx]; [apply in_map; exact Hin|].
       apply in_map_iff in Hx as [b' [<- Hb']]. apply in_map. exact (proj1 (drop_b_in _ _ _ Hb')). }
-    constructor; unfold gstates; cbn [g_idle g_fresh g_extra g_out].
+    constructor; unfold gstates; cbn [g_idle g_fresh g_extra g_gone g_out].
     + exact Hnd'.
     + apply drop_b_users. exact Hus.
     + intros x Hx. apply Hb. unfold gstates. apply in_app_or in Hx as [Hx|Hx].
@@ -188,22 +216,48 @@ Proof.
   apply IH. apply ginv_step. exact Hp.
 Qed.
 
-(* an interpreter in the pool has no global beyond the allow-list: its global names are exactly the ones
-   lStatePool.New registers *)
-Theorem idle_interpreters_have_allowlist_globals n ops x :
-  In x (g_idle (grun (ginit n) ops)) ->
-  extras_of (g_extra (grun (ginit n) ops)) x = [] /\
-  globals_of (grun (ginit n) ops) x = lua_set_globals ++ lua_base_fns.
+Lemma gone_grows_only_by_deletes p ops :
+  g_gone p = [] -> (forall u fn early script, In (GInvoke u fn early script) ops -> deleted fn script = []) ->
+  g_gone (grun p ops) = [].
+Proof.
+  unfold grun. revert p. induction ops as [|o ops IH]; intros p Hp Hd; cbn [fold_left]; [exact Hp|].
+  apply IH; [|intros u fn early script Hin; apply (Hd u fn early script); right; exact Hin].
+  destruct o as [u closes|u fn early script|u]; cbn [gstep].
+  - destruct (find_b (g_out p) u); [exact Hp|]. destruct (rev (g_idle p)); exact Hp.
+  - destruct (find_b (g_out p) u); [|exact Hp]. destruct (Bool.eqb _ _); [|exact Hp]. cbn.
+    rewrite (Hd u fn early script (or_introl eq_refl)). exact Hp.
+  - destruct (find_b (g_out p) u); exact Hp.
+Qed.
+
+(* an interpreter in the pool has no global beyond the ones lStatePool.New registered - whatever names the
+   Lua code of the borrowers tried to assign *)
+Theorem idle_interpreters_have_no_extra_globals n ops x :
+  In x (g_idle (grun (ginit n) ops)) -> extras_of (g_extra (grun (ginit n) ops)) x = [].
 Proof.
   intros Hx. pose proof (ginv_run n ops) as [Hnd _ _ He]. set (p := grun (ginit n) ops) in *.
-  assert (E : extras_of (g_extra p) x = []).
-  { unfold extras_of. destruct (filter (fun q => Nat.eqb (fst q) x) (g_extra p)) as [|q l] eqn:Ef; [reflexivity|].
-    exfalso. assert (Hq : In q (filter (fun q => Nat.eqb (fst q) x) (g_extra p))) by (rewrite Ef; left; reflexivity).
-    apply filter_In in Hq as [Hq Hqx]. apply Nat.eqb_eq in Hqx.
-    destruct (He q Hq) as [b [Hi [Hst _]]]. unfold gstates in Hnd.
-    (* x is idle and out at once *)
-    clear -Hnd Hx Hi Hst Hqx. induction (g_idle p) as [|a l' IH]; [destruct Hx|].
-    cbn in Hnd. inversion Hnd; subst. destruct Hx as [->|Hx]; [|exact (IH Hx H2)].
-    apply H1. apply in_or_app. right. rewrite <- Hst. apply in_map. exact Hi. }
-  split; [exact E|]. unfold globals_of. rewrite E, app_nil_r. reflexivity.
+  unfold extras_of. destruct (filter (fun q => Nat.eqb (fst q) x) (g_extra p)) as [|q l] eqn:Ef; [reflexivity|].
+  exfalso. assert (Hq : In q (filter (fun q => Nat.eqb (fst q) x) (g_extra p))) by (rewrite Ef; left; reflexivity).
+  apply filter_In in Hq as [Hq Hqx]. apply Nat.eqb_eq in Hqx.
+  destruct (He q Hq) as [b [Hi [Hst _]]]. unfold gstates in Hnd.
+  clear -Hnd Hx Hi Hst Hqx. induction (g_idle p) as [|a l' IH]; [destruct Hx|].
+  cbn in Hnd. inversion Hnd; subst. destruct Hx as [->|Hx]; [|exact (IH Hx H2)].
+  apply H1. apply in_or_app. right. rewrite <- Hst. apply in_map. exact Hi.
+Qed.
+
+(* ... and, as long as no script sets one of the registered names to nil, exactly those *)
+Theorem idle_interpreters_have_allowlist_globals_partial n ops x :
+  no_deletes ops -> In x (g_idle (grun (ginit n) ops)) -> globals_of (grun (ginit n) ops) x = base_globals.
+Proof.
+  intros Hd Hx. unfold globals_of. rewrite (idle_interpreters_have_no_extra_globals n ops x Hx), app_nil_r.
+  rewrite (gone_grows_only_by_deletes (ginit n) ops eq_refl Hd). cbn.
+  induction base_globals as [|a l IH]; cbn; [reflexivity | rewrite IH; reflexivity].
+Qed.
+
+(* without that hypothesis the statement is false: an assignment to a name that EXISTS never reaches the
+   __newindex guard. One EVAL `tostring = nil` and the interpreter goes back to the pool without tostring. *)
+Theorem idle_interpreters_have_allowlist_globals_refuted :
+  exists n ops x, In x (g_idle (grun (ginit n) ops)) /\ globals_of (grun (ginit n) ops) x <> base_globals.
+Proof.
+  exists 5, [GBorrow 0 false; GInvoke 0 "Server.cmdEvalUnified" false [mkA "tostring" true]; GReturn 0], 4.
+  split; [vm_compute; tauto | vm_compute; discriminate].
 Qed.
